@@ -174,7 +174,7 @@ def main():
 
     # --- verdicts ------------------------------------------------------------------------------------------------------
     STRIDE = 100000000
-    confirmed, shown = set(), {}
+    confirmed, shown, disagree = set(), {}, []
     for i, why in sorted(specfails.items(), key=lambda kv: (len(cands.get(kv[0] % STRIDE, {}).get("in", "")), kv[0])):
         xi = i % STRIDE
         c = cands.get(xi)
@@ -199,7 +199,7 @@ def main():
             else:
                 ck.add("further_failing_cases_not_listed", 1)
         else:
-            raise vlib.InfraError("trace spec rejects case %s (%s) that neither the automaton walk nor x/net/html rejects (candidate: %s)" % (i, why, c))
+            disagree.append("trace spec rejects case %s (%s) that neither the automaton walk nor x/net/html rejects" % (i, why))
     missing = [c for xi, c in cands.items() if xi not in confirmed]
     if missing:
         raise vlib.InfraError("%d candidates flagged by the automaton walk are not confirmed by the trace spec: %s" % (len(missing), missing[:2]))
@@ -208,7 +208,12 @@ def main():
     ck.set("candidates_confirmed", len(confirmed))
     only_go = [f for i, f in gofails.items() if i not in specfails]
     if only_go:
-        raise vlib.InfraError("x/net/html rejects %d rendered outputs the spec tokenizer accepts: %s" % (len(only_go), only_go[:2]))
+        disagree.append("x/net/html rejects %d rendered outputs the spec tokenizer accepts: %s" % (len(only_go), only_go[:2]))
+    if disagree:
+        # the keys disagree: machinery inconsistency (exit 2) -- unless violations confirmed by both keys exist, which stand
+        if not ck.violations and not ck.known_hit:
+            raise vlib.InfraError("; ".join(disagree[:3]))
+        ck.notes.append("keys disagree on %d cases besides the confirmed violations: %s" % (len(disagree), disagree[:2]))
     if tdrift:
         ck.add("model_drift_cases", len(tdrift))
 
